@@ -5,6 +5,7 @@ package main
 import (
 	"fmt"
 	"go/constant"
+	"go/token"
 	"go/types"
 	"reflect"
 	"strings"
@@ -1047,6 +1048,16 @@ func checkStopTracking(r *Report, p *Prog, rule string) {
 			ap := fc.AP(ck)
 			cons := p.FnName(fn) + ": only the cookie of the completed flow is cleared"
 			ok2 := false
+			// a copy of the looked-up cookie (expired := *cookie; ... SetCookie(w, &expired)) is that cookie
+			if al, isA := ck.(*ssa.Alloc); isA && al.Referrers() != nil {
+				for _, rf := range *al.Referrers() {
+					if st, isS := rf.(*ssa.Store); isS && st.Addr == ssa.Value(al) {
+						if ld, isL := st.Val.(*ssa.UnOp); isL && ld.Op == token.MUL {
+							ck = ld.X
+						}
+					}
+				}
+			}
 			if ex, okx := ck.(*ssa.Extract); okx && ex.Index == 0 {
 				if cc, okc := ex.Tuple.(*ssa.Call); okc && calleeIs(cc, "(*net/http.Request).Cookie") {
 					name := fc.AP(cc.Call.Args[1])
